@@ -193,3 +193,12 @@ package rep
 //@   ensures result.Self == 49 && result.Peer == 48 && result.SelfName == "rep" && result.PeerName == "req"
 //@
 // ---- end generated Info contracts ----
+
+// ---- generated wrapper contracts (tools/gen_wrapper_contracts.py) ----
+//@ func NewSocket
+//@   ghost pr = result at call:NewProtocol#1
+//@   ghost so = result at call:MakeSocket#1
+//@   before call:NewProtocol#1 assert callee_is("protocol/rep.NewProtocol")
+//@   before call:MakeSocket#1 assert arg0 == pr
+//@   ensures isnil(result1) && result0 == so
+// ---- end generated wrapper contracts ----
